@@ -53,7 +53,8 @@ class StreamTransport(Transport):
         """Connect the transport."""
         try:
             self.reader, self.writer = await self._open_connection()
-        except OSError as err:
+        except (OSError, UnicodeError) as err:
+            # UnicodeError: a host name that cannot be IDNA encoded (empty or too long label).
             raise TransportError(
                 f"Failed to connect to stream transport: {err}",
             ) from err
